@@ -1,3 +1,4 @@
 pub mod ast;
 pub mod print;
 pub mod wt;
+pub mod mutate;
